@@ -9,8 +9,14 @@
     tokens)*], the RightDelim item and EOF (each with its END offset).
   * `print_cmd_roundtrip_bytes`: … and the file parser's `parsePrint` (→ `printLoop` → `directiveArgs`, Model/FileParser) on these
     items behind the `{` gives the print node back modulo positions (expression, directive names, directive arguments), leaving
-    EOF; `print_cmd_injective_bytes`: two print commands with the same text are the same command.  The TAG ALONE: `beginTag`'s
-    dispatch to `parsePrint`, and the template / file around the tag, are not covered.
+    EOF; `print_cmd_injective_bytes`: two print commands with the same text are the same command.
+  * `print_cmd_file_roundtrip` (FILE level): `parse.SoyFile` (`parseSource` = lexer ∘ `itemList(itemEOF)`) on the printed text
+    returns exactly [the print node] modulo positions; `print_cmd_file_injective`.  Below it `beginTag_print` (the dispatch to
+    `parsePrint` for every first token of a printed expression, `headTypes`/`pieces_head`), `textOrTag_print` (any `untl`
+    without `{` and without a first token), `itemList_print`, `itemList_print_until` (inside a block) and `template_print`
+    (TOKEN level: `{template .t}` tag `{/template}` gives the template node whose body is [the print node]).
+    Not covered: the BYTE level of a frame with other tags around the print tag (`{namespace}`, soydoc, `{template}`: the
+    lexer lemma layer of C17b fixes `tagStart = 0`, i.e. the tag at the start of the input).
   Hypotheses: `NamesOk ff` of the expression and of every directive argument (Lemmas/LexPrintNames), and `DirNameOk`:
   the directive name is an identifier as the lexer reads it after `|` (ASCII letter or `_`, then letters / digits / `_`
   of any script) that is not a word of `builtinIdents` (`{$x|call}`, `{$x|if:1}` are rejected by the real parser too:
